@@ -102,6 +102,7 @@ struct ghost_cfg {
   /* ---- configuration chosen by the harness ---------------------------------- */
   bool cfg_nofault;      /* no injected failures                               */
   bool cfg_child_side;   /* fork() returns 0                                   */
+  bool cfg_no_low_fresh;  /* new descriptors are numbered above 2 (known finding D11) */
   bool cfg_release_after_stop; /* destroy harness: closes only once the stop plan is done */
   int cfg_std_fileno[3]; /* what fileno(stdin/stdout/stderr) answers, or -1    */
   int cfg_file_fd;       /* what fileno(user FILE) answers, or -1              */
@@ -192,6 +193,7 @@ void verif_fill(void *p, size_t n);
 #define REQ(label, ...)
 #define REQ_(...)
 #define ENS(label, ...) @@ENS label @@ __VA_ARGS__ @@END
+#define ENSX(label, ...) @@ENS label @@ __VA_ARGS__ @@END
 #define ASSIGNS(...)
 #define FREES(...)
 #define RV verif_rv
@@ -201,6 +203,7 @@ void verif_fill(void *p, size_t n);
 #define REQ(label, ...)
 #define REQ_(...)
 #define ENS(label, ...)
+#define ENSX(label, ...)
 #define ASSIGNS(...)
 #define FREES(...)
 #define RV verif_rv
@@ -211,6 +214,14 @@ void verif_fill(void *p, size_t n);
 #define ENS(label, ...) __CPROVER_ensures(__VA_ARGS__)
 #define ASSIGNS(...) __CPROVER_assigns(__VA_ARGS__)
 #define FREES(...) __CPROVER_frees(__VA_ARGS__)
+/* ENSX: a clause no caller relies on. A harness that only *replaces* calls by this
+   contract may be built with -DVERIF_SLIM, which drops these clauses (sound: the
+   contract that is enforced in the function's own harness is a superset). */
+#ifdef VERIF_SLIM
+#define ENSX(label, ...)
+#else
+#define ENSX(label, ...) __CPROVER_ensures(__VA_ARGS__)
+#endif
 #define RV __CPROVER_return_value
 #define OLD(...) __CPROVER_old(__VA_ARGS__)
 #endif
